@@ -407,6 +407,10 @@ def run_world(case):
     if 'pfs_a' in case:
         ea['dh'], eb['dh'] = [str(g) for g in case['pfs_a']], [str(g) for g in case['pfs_b']]
     confs = S.base_confs(a_over=oa, b_over=ob_, a_entry=ea, b_entry=eb)
+    if case.get('refused_first'):
+        # A's first protect entry has no counterpart at B: the CHILD_SA of the initial exchanges is refused, the IKE_SA stands
+        confs['A']['conn_ab']['protect'].insert(0, S.entry(21, my_subnet='10.7.0.0/24', peer_subnet='10.8.0.0/24', mode='tunnel',
+                                                           **{k: v for k, v in ea.items()}))
     seams.DH_LOG_ON = True
     del seams.DH_LOG[:]
     del seams.FORCED_DH_PRIVATE[:]
@@ -426,8 +430,10 @@ def run_world(case):
             ep = w.endpoints[who]
             del seams.FORCED_DH_PRIVATE[:]
             seams.FORCED_DH_PRIVATE.extend(forced.get(what, []))
-            if what in ('init', 'new-child'):
+            if what in ('init', 'new-child', 'init-refused'):
                 w.step(('acquire', who, 0, 0))
+            elif what == 'new-child2':         # the entry the peer has a counterpart for
+                w.step(('acquire', who, 0, 1 if who == 'A' else 0))
             elif what == 'cross-child':        # both start a CREATE_CHILD_SA exchange before anything is delivered
                 w.step(('acquire', 'A', 0, 0))
                 w.step(('acquire', 'B', 0, 0))
@@ -455,7 +461,7 @@ def run_world(case):
     return ob, w
 
 
-EXPECT = {'init': ('ike-keys', 'child-keymat:piggyback'), 'new-child': ('child-keymat:ccsa',),
+EXPECT = {'init-refused': ('ike-keys',), 'new-child2': ('child-keymat:ccsa',), 'init': ('ike-keys', 'child-keymat:piggyback'), 'new-child': ('child-keymat:ccsa',),
           'rekey-child': ('child-keymat:ccsa',), 'rekey-ike': ('ike-keys-rekey',),
           'cross-child': ('child-keymat:ccsa',), 'cross-rekey': ('child-keymat:ccsa',)}
 
@@ -700,6 +706,13 @@ def cases():
         out.append(mk('cross:pfs%s' % pfs, 'crossing', child=dict(pfs=pfs),
                       stages=('init:A', 'cross-child:A', 'cross-rekey:A', 'cross-rekey:B', 'rekey-ike:B', 'cross-child:A',
                               'cross-rekey:B')))
+    # (6') the CHILD_SA of the initial exchanges is refused (no counterpart for that entry), the IKE_SA stands; CHILD_SAs
+    # created on it afterwards - by either end, with and without PFS, also after a rekey - take the nonces of their own exchange
+    for pfs in (None, 19):
+        for prf in PRFS if not quick else ('sha256', 'sha512'):
+            out.append(mk('refused-first:pfs%s-prf%s' % (pfs, prf), 'refused-first', ike=dict(prf=prf), child=dict(pfs=pfs),
+                          refused_first=True, stages=('init-refused:A', 'new-child2:A', 'new-child2:B', 'rekey-child:A', 'rekey-ike:B',
+                                                      'new-child2:A')))
     # (7) the first KE guess is refused (INVALID_KE_PAYLOAD) in IKE_SA_INIT, CREATE_CHILD_SA and the IKE_SA rekey: the keys
     # come from the key pair of the retry.  Pairs of groups where the refused public value would also be accepted by
     # the arithmetic of the other group (MODP into a larger MODP) are the ones that fail silently.
